@@ -683,6 +683,10 @@ impl<'c> VisitMut for Rw<'c> {
                     Err(_) => self.cx.err(format!("outside dialect: macro `matches` in {}", self.fn_name)),
                 }
             }
+            else if m.mac.path.is_ident("format") {
+                // M4: `format!(..)` with arguments that only read is some string; nothing is known about its text (error messages)
+                match impure_log_args(&m.mac) { Ok(v) if v.is_empty() => { self.cx.fire("M4"); *e = parse_quote!(hx_format()); } _ => self.cx.err(format!("outside dialect: macro `format` with an argument that does more than read in {}", self.fn_name)) }
+            }
             else if m.mac.path.is_ident("vec") { self.cx.fire("M3"); /* `vec![..]` is part of the verifier's dialect: its element expressions are left as they are */ }
             else { self.cx.err(format!("outside dialect: macro `{}` in {}", nospace(&m.mac.path.to_token_stream().to_string()), self.fn_name)); }
         }
